@@ -24,11 +24,76 @@
 #include <ompl/util/Exception.h>
 #include <boost/serialization/export.hpp>
 #include <algorithm>
+#include <cstdlib>
 #include <map>
 #include <memory>
 #include <set>
 
 BOOST_CLASS_EXPORT(ompl::control::PlannerDataEdgeControl);
+
+// ------------------------------------------------------------------------------------------ operator new
+// libasan of g++ 12 cannot make the throwing `operator new` throw: for an absurd size it reports
+// allocation-size-too-big / out-of-memory and aborts the process, even with allocator_may_return_null=1
+// (which only makes *malloc* return null).  The real runtime throws std::bad_alloc, and what load() does with that
+// exception is exactly what `pdcross` observes (F30).  So this translation unit replaces the global operator
+// new/delete family by malloc/free wrappers (still ASan-instrumented allocations: overflow, use-after-free and
+// leak detection are unaffected; only the new/delete-mismatch check is lost) that throw std::bad_alloc when malloc
+// returns null.  The check sets ASAN_OPTIONS=allocator_may_return_null=1.
+#include <new>
+static void *vpAlloc(std::size_t n, std::size_t align = 0)
+{
+    if (n == 0)
+        n = 1;
+    void *p = nullptr;
+    if (align > alignof(std::max_align_t))
+    {
+        if (posix_memalign(&p, align, n) != 0)
+            p = nullptr;
+    }
+    else
+        p = std::malloc(n);
+    return p;
+}
+void *operator new(std::size_t n)
+{
+    if (void *p = vpAlloc(n))
+        return p;
+    throw std::bad_alloc();
+}
+void *operator new[](std::size_t n)
+{
+    if (void *p = vpAlloc(n))
+        return p;
+    throw std::bad_alloc();
+}
+void *operator new(std::size_t n, const std::nothrow_t &) noexcept { return vpAlloc(n); }
+void *operator new[](std::size_t n, const std::nothrow_t &) noexcept { return vpAlloc(n); }
+void *operator new(std::size_t n, std::align_val_t a)
+{
+    if (void *p = vpAlloc(n, (std::size_t)a))
+        return p;
+    throw std::bad_alloc();
+}
+void *operator new[](std::size_t n, std::align_val_t a)
+{
+    if (void *p = vpAlloc(n, (std::size_t)a))
+        return p;
+    throw std::bad_alloc();
+}
+void *operator new(std::size_t n, std::align_val_t a, const std::nothrow_t &) noexcept { return vpAlloc(n, (std::size_t)a); }
+void *operator new[](std::size_t n, std::align_val_t a, const std::nothrow_t &) noexcept { return vpAlloc(n, (std::size_t)a); }
+void operator delete(void *p) noexcept { std::free(p); }
+void operator delete[](void *p) noexcept { std::free(p); }
+void operator delete(void *p, std::size_t) noexcept { std::free(p); }
+void operator delete[](void *p, std::size_t) noexcept { std::free(p); }
+void operator delete(void *p, const std::nothrow_t &) noexcept { std::free(p); }
+void operator delete[](void *p, const std::nothrow_t &) noexcept { std::free(p); }
+void operator delete(void *p, std::align_val_t) noexcept { std::free(p); }
+void operator delete[](void *p, std::align_val_t) noexcept { std::free(p); }
+void operator delete(void *p, std::size_t, std::align_val_t) noexcept { std::free(p); }
+void operator delete[](void *p, std::size_t, std::align_val_t) noexcept { std::free(p); }
+void operator delete(void *p, std::align_val_t, const std::nothrow_t &) noexcept { std::free(p); }
+void operator delete[](void *p, std::align_val_t, const std::nothrow_t &) noexcept { std::free(p); }
 
 namespace ob = ompl::base;
 namespace oc = ompl::control;
@@ -331,19 +396,30 @@ struct SplitMix
     }
 };
 
-// offsets at which a stored stream of `n` bytes is truncated
+// offsets at which a stored stream of `n` bytes is truncated: every offset for archives up to
+// C09_TRUNC_EXHAUSTIVE bytes (default 6000), otherwise C09_TRUNC_SAMPLES (default 400) sampled offsets + the
+// first/last 64 + the known record boundaries
+static size_t envNat(const char *name, size_t dflt)
+{
+    const char *v = std::getenv(name);
+    if (!v)
+        return dflt;
+    auto n = vp::parseNat(v);
+    return n ? (size_t)*n : dflt;
+}
 static std::vector<size_t> truncOffsets(size_t n, uint64_t seed, const std::vector<size_t> &boundaries)
 {
+    static const size_t exhaustive = envNat("C09_TRUNC_EXHAUSTIVE", 6000), samples = envNat("C09_TRUNC_SAMPLES", 400);
     std::set<size_t> o;
-    if (n <= 6000)
+    if (n <= exhaustive)
         for (size_t k = 0; k < n; ++k)
             o.insert(k);
     else
     {
         SplitMix r{seed};
-        for (int k = 0; k < 400; ++k)
+        for (size_t k = 0; k < samples; ++k)
             o.insert(r.next() % n);
-        for (size_t k = 0; k < 64; ++k)
+        for (size_t k = 0; k < 64 && k < n; ++k)
         {
             o.insert(k);
             o.insert(n - 1 - k);
@@ -1044,8 +1120,9 @@ int main()
         else if (op == "pdcross" && t.size() == 1 && pds)
         {
             // a geometric archive given to the control loader (control PlannerData with 1 control dimension) and a
-            // control archive given to the geometric loader: the marker differs, load must return false.
-            // The check puts this op last: the current code can die here (finding F-C09-d).
+            // control archive given to the geometric loader: the marker differs, load must return false and log an
+            // error; no exception may escape (F30, fixed by 4a60b3f19: the loaders now catch std::exception; the
+            // check runs with allocator_may_return_null=1 so that the absurd allocation throws std::bad_alloc).
             bool ctl = pds->cdim >= 0;
             std::string bytes;
             {
